@@ -519,6 +519,58 @@ static void history_case (vp::Ctx& c, bool with_global)
     VP_REQUIRE (c, log1 == log2, "history-not-deterministic", "replaying the same history produced different outputs");
 }
 
+// ---------------------------------------------------------------------------
+// Seeding during static initialisation: a static initialiser of this TU (linked ahead of the library objects, so it
+// runs before any dynamic initialiser of ImathRandom.cpp) calls srand48; the draws made later from main must
+// continue from that seed, as they do with POSIX's srand48.  This sub-check is registered first, so it runs before
+// any other sub-check re-seeds the process-wide generator.
+static const long C18_STATIC_INIT_SEED = 0x2badcafeL;
+struct StaticInitSeeder
+{
+    long first_in_initialiser;
+    StaticInitSeeder ()
+    {
+        IM::srand48 (C18_STATIC_INIT_SEED);
+        first_in_initialiser = IM::lrand48 ();
+    }
+};
+static const StaticInitSeeder g_static_init_seeder;
+
+VP_EXHAUSTIVE (seed_survives_static_initialisation, 1, 1, "one history: srand48(seed) and one lrand48() inside a static initialiser of the harness TU, then 8 lrand48()/drand48() draws from the first sub-check to run; every draw compared with the LCG model continued from the seed; non-trivial = always")
+{
+    (void) idx;
+    std::unique_lock<std::mutex> lk (g_global_rand_mutex);
+    uint64_t x = ((uint64_t) ((uint32_t) C18_STATIC_INIT_SEED) << 16) | 0x330e;
+    x          = next48 (x);
+    VP_NOTE (c, "srand48(0x" << std::hex << C18_STATIC_INIT_SEED << ") in a static initialiser, draws continued from main");
+    c.nt ();
+    VP_REQUIRE (c, g_static_init_seeder.first_in_initialiser == (long) (x >> 17), "static-init/lrand48-in-initialiser", "lrand48() right after srand48() inside a static initialiser returned 0x" << std::hex << g_static_init_seeder.first_in_initialiser << " model 0x" << (x >> 17));
+    // the 8 draws are taken once, by whichever evaluation of this sub-check comes first (it is the first sub-check to
+    // run, also in a replay process), and every evaluation - shrinking, the three confirmation replays - compares
+    // the same stored values
+    struct Draws
+    {
+        long   l[4];
+        double d[4];
+        Draws ()
+        {
+            for (int i = 0; i < 4; ++i)
+            {
+                l[i] = IM::lrand48 ();
+                d[i] = IM::drand48 ();
+            }
+        }
+    };
+    static const Draws draws;
+    for (int i = 0; i < 4; ++i)
+    {
+        x = next48 (x);
+        VP_REQUIRE (c, draws.l[i] == (long) (x >> 17), "static-init/seed-lost", "draw " << 2 * i + 2 << " after srand48() in a static initialiser: lrand48() = 0x" << std::hex << draws.l[i] << " but the sequence seeded there continues with 0x" << (x >> 17) << " (state reset between static initialisation and main?)");
+        x = next48 (x);
+        VP_REQUIRE (c, std::fabs (draws.d[i] - posix_unit (x)) <= TWO_M48, "static-init/seed-lost", "draw " << 2 * i + 3 << " after srand48() in a static initialiser: drand48() = " << draws.d[i] << " but the sequence seeded there continues with " << posix_unit (x));
+    }
+}
+
 #define C18_HIST_RULE "histories of 1..200 operations (mostly <= 40) over two caller-owned state arrays (nrand48, erand48, re-seed), one Rand48 and one Rand32 object (init, nexti, nextb, nextf, nextf(a,b))"
 VP_RANDOM (history_arrays_objects, 1000000, 10000000, C18_HIST_RULE "; initial and re-seeded 48-bit states: 0, 2^48-1, predecessors of states with all-zero / all-one top 31 bits or all 48 bits, small, words from {0,ffff,8000,7fff}, uniform; seeds 0, 1, ULONG_MAX, 2^32-1, 2^32.., 16/32/64-bit; bounds a,b from 0, small ints, +-max/4, huge, tiny, subnormal, nice, incl. a > b and a == b.  After EVERY step: value and state array equal the 48-bit LCG model and glibc's function run on a copy of the previous state (erand48: |difference| <= 2^-48 and in [0,1)); objects equal the model of init/next; nextf(a,b) inside [min,max] +- 2 eps max(|a|,|b|) and within 2 eps of a(1-f)+bf; whole history replayed once more must give identical outputs.  non-trivial = mixes >= 2 generator families and uses >= 1 boundary state")
 {
